@@ -424,6 +424,79 @@ fn proplist_checks(ctx: &Ctx, rng: &mut Rng) {
     }
 }
 
+/// Nested property lists whose values are themselves property lists, plain lists, or lists that merely begin like a
+/// property list (a bare atom or a pair in front, then something that is neither): the recursive conversion must turn
+/// exactly the property lists into maps and keep every element of everything else.
+fn recursive_conversion_checks(ctx: &Ctx, rng: &mut Rng) {
+    fn nested(rng: &mut Rng, depth: usize, tag: &mut u32) -> (OwnedTerm, OwnedTerm, &'static str) {
+        // returns (input, what the conversion has to produce, kind)
+        *tag += 1;
+        match if depth == 0 { rng.below(3) } else { rng.below(7) } {
+            0 => (OwnedTerm::Integer(*tag as i64), OwnedTerm::Integer(*tag as i64), "leaf"),
+            1 => (OwnedTerm::atom(&format!("v{}", tag)), OwnedTerm::atom(&format!("v{}", tag)), "leaf"),
+            2 => (OwnedTerm::Binary(vec![*tag as u8; 3]), OwnedTerm::Binary(vec![*tag as u8; 3]), "leaf"),
+            3 | 4 => {
+                // a property list: pairs with distinct atom keys and bare atoms
+                let n = 1 + rng.below(3);
+                let mut input = Vec::new();
+                let mut want = std::collections::BTreeMap::new();
+                for i in 0..n {
+                    *tag += 1;
+                    let key = format!("k{}_{}", tag, i);
+                    if rng.chance(1, 4) {
+                        input.push(OwnedTerm::atom(&key));
+                        want.insert(OwnedTerm::atom(&key), OwnedTerm::atom("true"));
+                    } else {
+                        let (vi, vw, _) = nested(rng, depth - 1, tag);
+                        input.push(OwnedTerm::Tuple(vec![OwnedTerm::atom(&key), vi]));
+                        want.insert(OwnedTerm::atom(&key), vw);
+                    }
+                }
+                (OwnedTerm::List(input), OwnedTerm::Map(want), "proplist")
+            }
+            5 => {
+                // begins like a property list, is none: every element stays (tuples as they are)
+                *tag += 1;
+                let head = if rng.bool() { OwnedTerm::atom(&format!("flag{}", tag)) } else { OwnedTerm::Tuple(vec![OwnedTerm::atom(&format!("opt{}", tag)), OwnedTerm::Integer(1)]) };
+                let odd = match rng.below(3) {
+                    0 => OwnedTerm::Integer(42),
+                    1 => OwnedTerm::Tuple(vec![OwnedTerm::atom("a"), OwnedTerm::Integer(1), OwnedTerm::Integer(2)]),
+                    _ => OwnedTerm::Tuple(vec![OwnedTerm::Integer(7), OwnedTerm::atom("int_key")]),
+                };
+                let mut input = vec![head];
+                for _ in 0..rng.below(3) {
+                    *tag += 1;
+                    input.push(OwnedTerm::Tuple(vec![OwnedTerm::atom(&format!("p{}", tag)), OwnedTerm::Integer(*tag as i64)]));
+                }
+                let at = 1 + rng.below(input.len());
+                input.insert(at, odd);
+                (OwnedTerm::List(input.clone()), OwnedTerm::List(input), "begins-like-a-proplist")
+            }
+            _ => {
+                let items: Vec<OwnedTerm> = (0..1 + rng.below(3)).map(|i| OwnedTerm::Integer(1000 + i as i64)).collect();
+                (OwnedTerm::List(items.clone()), OwnedTerm::List(items), "plain-list")
+            }
+        }
+    }
+    for _ in 0..ctx.pick(600, 60_000) {
+        ctx.eval(1);
+        let mut tag = 0u32;
+        let (input, want, kind) = nested(rng, 3, &mut tag);
+        ctx.class(&format!("to_map_recursive/{}", kind));
+        match guarded(|| input.to_map_recursive()) {
+            Ok(Ok(got)) => {
+                if !val_of(&got).same(&val_of(&want)) {
+                    let shown = format!("{}|{}", val_of(&input).show(), val_of(&got).show());
+                    let cause = if shown.contains("flag") || shown.contains("opt") { "a-list-that-only-begins-like-a-proplist" } else { "other" };
+                    ctx.viol(&format!("C20:to_map_recursive:loses-or-alters:{}", cause), "the recursive conversion does not turn exactly the property lists into maps and keep everything else", json!({"input": val_of(&input).show(), "result": val_of(&got).show(), "expected": val_of(&want).show()}));
+                }
+            }
+            Ok(Err(e)) => ctx.viol("C20:to_map_recursive:error", "the recursive conversion failed on well-formed input", json!({"input": val_of(&input).show(), "error": e.to_string()})),
+            Err(p) => ctx.viol("C20:panic:proplist", "panic", json!({"input": val_of(&input).show(), "panic": p})),
+        }
+    }
+}
+
 fn builder_checks(ctx: &Ctx, rng: &mut Rng) {
     const KEYS: &[&str] = &["a", "b", "name", "Elixir.K", "", "ключ", "timeout", "__struct__"];
     for _ in 0..ctx.pick(800, 80_000) {
@@ -710,7 +783,7 @@ fn derived_checks(ctx: &Ctx, rng: &mut Rng) {
 struct Wrapped(Vec<DRaw>);
 
 pub fn run(ctx: &Ctx) {
-    ctx.rule("cases = every Elixir wrapper (Range, MapSet, Date, Time, NaiveDateTime, DateTime, 12 exception structs, derive(ElixirStruct) mappings incl. raw-identifier fields, no fields, nested mappings and fields named like words of the format) with field values from the extremes grid + random values, converted to a term and back in memory and across encode/decode; mutated terms (missing key, wrong type, out-of-range / negative / big integer, other struct) must be rejected or accepted without fabricating a field; Range len/contains/iteration/size_hint against an i128 reference over a bounds x steps grid incl. extremes (debug and release builds); proplist<->map helpers on well-formed proplists with distinct keys; keyword-list / atom-key-map builders driven through every method (put/insert in all flavours, conditional ones, extend with keys already present or repeated, build / build_struct) against a model; distinct = distinct (wrapper, value class) / (range class) / (mutation kind) labels");
+    ctx.rule("cases = every Elixir wrapper (Range, MapSet, Date, Time, NaiveDateTime, DateTime, 12 exception structs, derive(ElixirStruct) mappings incl. raw-identifier fields, no fields, nested mappings and fields named like words of the format) with field values from the extremes grid + random values, converted to a term and back in memory and across encode/decode; mutated terms (missing key, wrong type, out-of-range / negative / big integer, other struct) must be rejected or accepted without fabricating a field; Range len/contains/iteration/size_hint against an i128 reference over a bounds x steps grid incl. extremes (debug and release builds); proplist<->map helpers on well-formed proplists with distinct keys; the recursive conversion on nested property lists whose values are property lists, plain lists and lists that merely begin like one, against a model; keyword-list / atom-key-map builders driven through every method (put/insert in all flavours, conditional ones, extend with keys already present or repeated, build / build_struct) against a model; distinct = distinct (wrapper, value class) / (range class) / (mutation kind) labels");
     ctx.assume("ElixirRange::len saturates at usize::MAX for MIN..MAX//1 (2^64 elements) in the reference; members of sets/exceptions are compared by denoted value across the wire");
     let mut rng = Rng::derive(ctx.seed, 20, 1);
     range_checks(ctx, &mut rng);
@@ -792,6 +865,7 @@ pub fn run(ctx: &Ctx) {
         }
     }
     proplist_checks(ctx, &mut rng);
+    recursive_conversion_checks(ctx, &mut rng);
     builder_checks(ctx, &mut rng);
     derived_checks(ctx, &mut rng);
 }
